@@ -6,6 +6,7 @@ DgThorough == {g.d : g \in All(3)}
 \* as found, the 65535-record datagrams just take 65535 (terminating) iterations: left out of the as-found runs
 DgCov == {g.d : g \in {T("good", Good(<<"A1","CC","TX">>))} \cup Truncs(Good(<<"A1","CC","TX">>)) \cup PtrMuts(Good(<<"CC">>))}
 DgLarge == {g.d : g \in Larges}
+DgLong == {g.d : g \in LongLabels}
 DgCycles == {g.d : g \in LabelCycles}
 DgAsFound == {x \in {g.d : g \in Family(<<"A1","CC">>)} : Len(x) < 8 \/ x[7] # 255}
 =============================================================================
